@@ -195,3 +195,26 @@ Proof. intros He. apply in_eras4 in He. destruct He as [->|[->|[->| ->]]]; eexis
 
 Lemma is_later_alonzo era : is_later era = false -> era = "alonzo"%string.
 Proof. unfold is_later. intros H. apply negb_false_iff in H. now apply String.eqb_eq. Qed.
+
+(* the precomputed table used by the correspondence check is the definition *)
+Lemma kind_table_ok : kind_table = kind_table_def.
+Proof. vm_compute. reflexivity. Qed.
+
+Lemma check_case_run_kind c rs : In (k_era c) eras4 -> rules_of (k_era c) = Some rs ->
+  check_case c = list_eqb result_eqb
+    (map (fun k => run_kind rs k (mk_tx (k_nred c) (k_inputs c) (k_fee c) (k_ret c) (k_pct c) (k_max c))) kinds) (k_obs c).
+Proof.
+  intros He H. unfold check_case. rewrite kind_table_ok. unfold kind_table_def.
+  assert (forall l, In (k_era c) l ->
+    (forall era, In era l -> In era eras4) ->
+    NoDup l ->
+    assoc (k_era c) (map (fun era => (era, map (fun k => (k, match rules_of era with Some rs => kind_names rs k | None => [] end)) kinds)) l)
+    = Some (map (fun k => (k, kind_names rs k)) kinds)) as A.
+  { induction l as [|e l IH]; intros Hin Hall Hnd; [destruct Hin|]. cbn [map assoc].
+    destruct (String.eqb_spec (k_era c) e) as [<-|Hne].
+    - now rewrite H.
+    - destruct Hin as [->|Hin]; [contradiction|]. inversion Hnd; subst. apply IH; auto. intros; apply Hall; now right. }
+  rewrite A; [|exact He|auto|].
+  - rewrite map_map. reflexivity.
+  - repeat constructor; cbn; intuition discriminate.
+Qed.
